@@ -9,6 +9,8 @@ package checks
 
 import (
 	"fmt"
+	"github.com/MichaelMure/git-bug/cache"
+	"github.com/MichaelMure/git-bug/query"
 	"reflect"
 	"sort"
 	"strconv"
@@ -29,9 +31,17 @@ type e2eField struct {
 	Field   string
 	BugId   string // non-empty: reached through repository.bug(prefix)
 	NodeKey string // field identifying a node: id | name
+	Extra   string // further arguments of the field, e.g. `query: "status:open"`
 }
 
 func (f e2eField) document(args string) string {
+	if f.Extra != "" {
+		if args != "" {
+			args = f.Extra + ", " + args
+		} else {
+			args = f.Extra
+		}
+	}
 	if args != "" {
 		args = "(" + args + ")"
 	}
@@ -746,6 +756,81 @@ var c20EndToEnd = func(r *mon.Run) {
 		}
 		r.Case(fmt.Sprintf("e2e/concurrent-walks/fields=%d", len(stable)), len(stable) > 0)
 	}
+	// A server that lives on: the same query is listed and walked, then a bug is changed through the served cache so that
+	// the answer changes while the number of bugs does not (an open bug is closed), and the query is listed and walked
+	// again by further requests. Reference: what the served cache answers to the same query at that moment.
+	func() {
+		const qs = "status:open"
+		f := e2eField{Key: "allBugs[" + qs + "]", Schema: "Repository.allBugs", Field: "allBugs", NodeKey: "id", Extra: fmt.Sprintf("query: %q", qs)}
+		q, err := query.Parse(qs)
+		if err != nil {
+			r.Inconclusive("e2e: " + err.Error())
+			return
+		}
+		truth := func() []string {
+			ids, err := h.RC.Bugs().Query(q)
+			if err != nil {
+				return nil
+			}
+			out := make([]string, len(ids))
+			for i, id := range ids {
+				out[i] = id.String()
+			}
+			return out
+		}
+		look := func(stage string) bool {
+			ref := truth()
+			list, msg := e2eFetch(h, f, "")
+			if msg != "" {
+				r.Violation("e2e-listing:"+f.Key, stage+": "+msg, map[string]any{"field": f.Key, "stage": stage})
+				return false
+			}
+			ok := true
+			if !sameStrings(list.Nodes, ref) || list.Total != len(ref) {
+				ok = false
+				r.Violation("e2e-query-list-vs-cache:"+stage, fmt.Sprintf("%s, %s: the unpaginated request lists %d bugs (totalCount %d), the served cache answers the same query with %d: %s", f.Key, stage, len(list.Nodes), list.Total, len(ref), describeWalkDiff(list.Nodes, ref)),
+					map[string]any{"field": f.Key, "stage": stage})
+			}
+			for _, size := range []int{2, 5} {
+				got, pages, _, fatal := e2eWalk(h, f, size, true, len(list.Nodes))
+				r.Count("e2e_query_walks", 1)
+				r.Count("e2e_query_walk_pages", pages)
+				if fatal != "" || !sameStrings(got, ref) {
+					ok = false
+					what := fatal
+					if what == "" {
+						what = describeWalkDiff(got, ref)
+					}
+					r.Violation("e2e-query-walk-vs-cache:"+stage, fmt.Sprintf("%s, %s, page size %d: %s", f.Key, stage, size, what), map[string]any{"field": f.Key, "stage": stage, "page_size": size})
+				}
+			}
+			return ok
+		}
+		if !look("before-the-change") {
+			return
+		}
+		open := truth()
+		if len(open) < 2 {
+			r.Inconclusive("e2e: fewer than two open bugs are served")
+			return
+		}
+		bc, err := h.RC.Bugs().Resolve(entity.Id(open[len(open)/2]))
+		if err == nil {
+			var author *cache.IdentityCache
+			if author, err = h.RC.Identities().Resolve(r0.Authors[0].Id()); err == nil {
+				_, err = bc.CloseRaw(author, 1700000000, nil)
+			}
+		}
+		if err == nil {
+			err = bc.Commit()
+		}
+		if err != nil {
+			r.Inconclusive("e2e: cannot close a served bug: " + err.Error())
+			return
+		}
+		look("after-an-open-bug-was-closed")
+		r.Case("e2e/query-walk-around-a-change", true)
+	}()
 	r.Count("e2e_http_requests", int(h.Requests))
 }
 
